@@ -149,14 +149,29 @@ def optAll (f : J → Bool) : Option J → Bool
 def Packet.wire (p : Packet) : Packet :=
   { p.norm with data := if isBinType p.type then p.data.map (fun j => (decon j []).1) else p.data }
 
-/-- Well-formed packet (the property's quantifier): header fields well-formed, payload not a
-    bare number, no reserved key, byte strings only under the two binary types, and fewer than
+/-- Well-formedness without the restriction on the top-level payload: header fields
+    well-formed, no reserved key, byte strings only under the two binary types, and fewer than
     `10^10` of them (the decoder refuses an attachment count of more than ten digits). -/
-def WF (p : Packet) : Bool :=
+def WFCore (p : Packet) : Bool :=
   WFHdr p.type p.nsp p.id none
-    && optAll TopOK p.data && optAll NoReservedKey p.data
+    && optAll NoReservedKey p.data
     && (isBinType p.type || optAll NoBin p.data)
     && optAll (fun j => decide ((binLeaves j).length < 10 ^ 10)) p.data
+
+/-- Well-formed packet (the property's quantifier): `WFCore` and the payload is not a bare
+    number. -/
+def WF (p : Packet) : Bool := WFCore p && optAll TopOK p.data
+
+/-- The attachment-count field `encode` writes: present exactly for the two binary types. -/
+def Packet.nattField (p : Packet) : Option Nat :=
+  if isBinType p.type then
+    some (match p.data with | some j => (binLeaves j).length | none => 0)
+  else none
+
+/-- The JSON text `s` of the payload may follow the header of `p` (weakest form): it is not
+    empty and cannot be mistaken for a header field *of this header* (`BodyOK`). -/
+def PayloadOK (cls : Char → DC) (p : Packet) (s : Str) : Bool :=
+  !s.isEmpty && BodyOK cls p.nsp p.id p.nattField s
 
 /-- The same for the arguments of the constructor `Packet(type, data, namespace, id)`
     (before the promotion EVENT→BINARY_EVENT, ACK→BINARY_ACK). -/
